@@ -332,7 +332,12 @@ def numeric_atoms(rng: random.Random, v: str, *, rich: bool = True) -> dict:
     elif kind == "Q":
         a.update(expr=f"Q('{v}')", cls="ident")
     elif kind == "Cnum":
-        a.update(expr=f"C({n})", cls="C", kind="cat")
+        if v == "k":
+            a.update(expr=f"C({n})", cls="C", kind="cat")
+        else:
+            # C() of a continuous column has one level per distinct value: interactions of two of them are thousands of
+            # columns wide and a single run then takes minutes; whole-number columns only
+            a.update(expr=n, cls="lookup")
     elif kind == "nested":
         # a stateful call nested inside a larger factor (its state key is the inner call, not the factor)
         a.update(expr=rng.choice([f"scale(center({n}))", f"I(center({n}) ** 2)", f"exp(scale({n}) / 4)", f"np.abs(standardize({n}))",
